@@ -66,7 +66,7 @@ void SFileSetLastError(DWORD error);
 
 /* Verification functions */
 bool SFileVerifyFile(HANDLE archive, const char* filename, DWORD flags);
-DWORD SFileVerifyArchive(HANDLE archive);
+bool SFileVerifyArchive(HANDLE archive, DWORD flags);
 bool SFileSignArchive(HANDLE archive, DWORD signature_type);
 bool SFileGetAttributes(HANDLE archive);
 
